@@ -135,7 +135,7 @@ def h_link(ctx):
             raise
         except Exception as e:  # pylint: disable=broad-except
             res = "other:" + type(e).__name__
-            ctx.log("err", str(e)[:160])
+            ctx.log("err", type(e).__name__)
         sig = f"p={prod}|c={c}"
         ctx.log(f"res{k}", res)
         ctx.cover(res.split(":")[0])
@@ -210,7 +210,7 @@ def h_rewrite(ctx):
         raise
     except Exception as e:  # pylint: disable=broad-except
         res = "other:" + type(e).__name__
-        ctx.log("err", str(e)[:160])
+        ctx.log("err", type(e).__name__)
     sig = f"{kind}:cgrid={cgrid}:cunits={cunits}"
     ctx.cover(res.split(":")[0])
     ctx.log("res", res)
